@@ -1,8 +1,9 @@
 """C01 — see DESIGN.md §6 C01. Shares harness/wire_main.cpp and the Lean wire model with C01–C04; additionally ties the
 InputMemoryStream / OutputMemoryStream models to the real classes (harness/c01_cursor.cpp)."""
-import random
+import os, random, re, struct
 from vlib import core, corr
 from checks import wire_checks
+from checks import wire_common as wc
 
 LEVEL = "proof"
 MANIFEST = dict(
@@ -10,14 +11,18 @@ MANIFEST = dict(
          "access, only malformed_packet, strictly shorter inner buffer) for all byte strings, assembled in Wire/RegistryFacts.lean into the "
          "unconditional whole-packet theorem parse_any_safe (any entry point, any byte string, any nesting depth, any mix of families) and "
          "parsed_layers_good (every accepted layer satisfies its class invariant); accessor-safety theorems for the typed option decoders. "
-         "Every entry point (modelled or not) is driven under ASan/UBSan/LSan on structured, mutated, every-length and random buffers with an accessor sweep.",
+         "Every entry point (modelled or not) is driven under ASan/UBSan/LSan on structured, mutated, every-length and random buffers with an accessor sweep. "
+         "The list of entry points is regenerated from the clang AST of the headers on every run (every public constructor / static / member / "
+         "free function taking const uint8_t* + size, 128 today); theorem entry_points_covered (by decide) demands a disposition (Lean model + "
+         "theorem | harness | not a parser) for each, and harness/c01_entry.cpp calls every one that is not `not a parser`.",
     note="The theorems are about hand-written, code-shaped Lean models of 53 entry classes in seven families (link layers, IPv4 + options / AH / ESP, "
          "IPv6 + extension headers, TCP + options / UDP, ICMP / ICMPv6 + extensions, DHCP / DHCPv6 / BootP / RTP / VXLAN / ARP / STP, 802.11 / "
          "RadioTap / EAPOL; list in the evidence: modelled_classes); the tie to the C++ is differential correspondence of every line under "
          "ASan/UBSan/LSan plus the Lean spec oracle evaluated on the implementation's own output; DNS as an entry class and the paths "
          "the model cannot express (host routing table in IP::prepare_for_serialize, EAPOL null result) get the implementation-side oracle "
          "only (evidence: unmodelled_lines). Trusted: Lean kernel + propext/Classical.choice/Quot.sound, the models, harness, generators, "
-         "translator/gen_tags.py; allocator / lifetime behaviour is observed by the sanitizers, not proved.",
+         "translator/gen_tags.py, translator/gen_entrypoints.py and the hand-maintained disposition table Wire/Coverage.lean; allocator / lifetime "
+         "behaviour is observed by the sanitizers, not proved.",
     technique="Lean 4 proof over executable byte-level models + model/impl correspondence + spec oracle on impl output",
     design="DESIGN.md §6 C01, §11.2")
 
@@ -57,8 +62,245 @@ def gen_stream_ops(rng, ncases):
     return ops
 
 
+# ------------------------------------------------------------------------------------------ entry-point coverage
+
+ENTRY_AUDIT = "Audit/C01Entry.lean"
+ETHER_TAGS = [0x0800, 0x86dd, 0x0806, 0x8100, 0x88a8, 0x9100, 0x8863, 0x8864, 0x888e, 0x8847, 0x7777, 0x0000, 0xffff]
+IP_TAGS = [6, 17, 1, 58, 50, 51, 4, 41, 47, 253, 0, 255]
+DLT_TAGS = [0, 1, 12, 101, 105, 108, 113, 119, 127, 192, 228, 229, 258, 9999]    # pcap DLT_* values libtins knows + unknown ones
+PDU_TYPES = list(range(0, 64)) + [1000]
+
+
+def opkey(key):
+    return key.replace(" ", "")
+
+
+def wire_name(labels):
+    return b"".join(bytes([len(l)]) + l for l in labels) + b"\0"
+
+
+def entry_seeds(rng):
+    """structured, mostly valid inputs of the entry points that are not whole-packet parsers, written from the RFCs /
+    IEEE layouts (not from libtins); key prefix -> list of byte strings"""
+    u32 = lambda *v: b"".join(struct.pack(">I", x) for x in v)
+    soa = wire_name([b"ns", b"example", b"com"]) + wire_name([b"admin", b"example", b"com"]) + u32(2024010101, 7200, 900, 1209600, 86400)
+    rsn = struct.pack("<H", 1) + bytes.fromhex("000fac04") + struct.pack("<H", 2) + bytes.fromhex("000fac04000fac02") + \
+        struct.pack("<H", 1) + bytes.fromhex("000fac02") + struct.pack("<H", 0x000c)
+    ext_obj = struct.pack(">HBB", 8, 1, 1) + bytes.fromhex("00012345")
+    ext_body = ext_obj + struct.pack(">HBB", 4, 2, 7)
+
+    def ext_struct(body, version=2):
+        hdr = bytes([version << 4, 0, 0, 0]) + body
+        if len(hdr) % 2:
+            hdr += b"\0"
+        tot = sum(struct.unpack(">%dH" % (len(hdr) // 2), hdr))
+        while tot >> 16:
+            tot = (tot & 0xffff) + (tot >> 16)
+        ck = (~tot) & 0xffff
+        return bytes([version << 4, 0]) + struct.pack(">H", ck) + body
+    mar = bytes([1, 0]) + struct.pack(">H", 2) + bytes(range(16)) + bytes(range(16, 48))
+    mar_aux = bytes([4, 1]) + struct.pack(">H", 1) + bytes(16) + bytes(range(16)) + b"\xaa\xbb\xcc\xdd"
+    return {
+        "DNS::soa_record::soa_record": [soa, soa[:-1], soa[:-20], b"\0\0" + u32(1, 2, 3, 4, 5), soa.replace(b"\0", b"\1"),
+                                        b"\xc0\x0c" + soa, wire_name([b"a" * 63] * 4) + b"\0" + u32(1, 2, 3, 4, 5)],
+        "DHCPv6::duid_llt::from_bytes": [struct.pack(">HI", 1, 0x12345678) + bytes(range(6)), struct.pack(">HI", 1, 7)],
+        "DHCPv6::duid_en::from_bytes": [struct.pack(">I", 9) + b"identifier", struct.pack(">I", 9)],
+        "DHCPv6::duid_ll::from_bytes": [struct.pack(">H", 1) + bytes(range(6)), struct.pack(">H", 1)],
+        "Dot11ManagementFrame::vendor_specific_type::from_bytes": [bytes.fromhex("0050f2") + b"\x01\x01\x00", bytes.fromhex("0050f2")],
+        "RSNInformation::RSNInformation": [rsn, rsn[:-2], rsn[:8], struct.pack("<H", 1) + bytes.fromhex("000fac04") + struct.pack("<H", 0xffff),
+                                           rsn[:14] + struct.pack("<H", 0x7fff) + rsn[16:]],
+        "ICMPExtension::ICMPExtension": [ext_obj, struct.pack(">HBB", 4, 0, 0), struct.pack(">HBB", 3, 1, 1), struct.pack(">HBB", 0xffff, 1, 1) + bytes(8)],
+        "ICMPExtensionsStructure::ICMPExtensionsStructure": [ext_struct(ext_body), ext_struct(b""), ext_struct(ext_body, 1), ext_struct(ext_body)[:-1],
+                                                             ext_struct(struct.pack(">HBB", 2, 1, 1))],
+        "ICMPExtensionsStructure::validate_extensions": [ext_struct(ext_body), ext_struct(b""), ext_struct(ext_body, 1), ext_struct(ext_body)[:-1],
+                                                         ext_struct(ext_body + b"\x01")],
+        "ICMPv6::multicast_address_record::multicast_address_record": [mar, mar_aux, mar[:20], bytes([1, 255]) + struct.pack(">H", 0xffff) + bytes(16)],
+        "Internals::is_dot3": [bytes(12) + b"\x07", bytes(12) + b"\x08", bytes(12)],
+    }
+
+
+def gen_entry_ops(rng, rows, quick):
+    """ops for harness/c01_entry.cpp: for every driven row every length 0..N of zeros / ones / random bytes, structured
+    seeds and mutants; the dispatchers additionally for every tag they know"""
+    sd = wc.seeds()
+    special = entry_seeds(rng)
+    upto = 40 if quick else 96
+    nrand = 6 if quick else 60
+    ops = []
+
+    def fills(ln):
+        return [bytes(ln), b"\xff" * ln, bytes(rng.randrange(256) for _ in range(ln))] if ln else [b""]
+
+    def pool_of(r):
+        cls = r["owner"]
+        if r["name"] == "from_bytes" and cls in ("Dot11", "EAPOL"):
+            cls += "*"
+        pool = [bytes.fromhex(h) for h in (sd.get(cls) or [])]
+        if cls == "EAPOL":
+            pool += [bytes.fromhex(h) for h in (sd.get("RC4EAPOL") or []) + (sd.get("RSNEAPOL") or [])]
+        for pre, v in special.items():
+            if r["key"].startswith(pre + "("):
+                pool += v
+        return pool
+
+    def data_ops(k, pool, args=""):
+        out = []
+        for ln in range(upto + 1):
+            for b in fills(ln):
+                out.append(f"entry {k} {wc.hexs(b)}{args}")
+        picks = pool if len(pool) <= nrand else rng.sample(pool, nrand)
+        for j, b in enumerate(picks):
+            out.append(f"entry {k} {wc.hexs(b)}{args}")
+            for _ in range(2 if quick else 8):
+                m = b
+                for _ in range(rng.choice([1, 1, 2, 3])):
+                    m = wc.mutate(rng, m)
+                out.append(f"entry {k} {wc.hexs(m)}{args}")
+            if len(b) <= 128 and j < (2 if quick else 6):   # every prefix of a structured input: truncation at every byte
+                out += [f"entry {k} {wc.hexs(b[:i])}{args}" for i in range(len(b))]
+        for _ in range(nrand):
+            ln = rng.choice([41, 48, 64, 100, 255, 256, 1500, rng.randint(0, 300)])
+            out.append(f"entry {k} {wc.hexs(bytes(rng.randrange(256) for _ in range(ln)))}{args}")
+        return out
+
+    def cls_pool(names):
+        return [bytes.fromhex(h) for n in names for h in (sd.get(n) or [])[:6]]
+
+    for r in rows:
+        k = opkey(r["key"])
+        nm = r["owner"] + "::" + r["name"]
+        if nm == "Internals::pdu_from_flag" and "Ethernet" in r["params"]:
+            pool = cls_pool(["IP", "IPv6", "ARP", "Dot1Q", "PPPoE", "EAPOL*", "MPLS", "DNS"])
+            for t in ETHER_TAGS:
+                for raw in (1, 0):
+                    ops += data_ops(k, pool, f" {t} {raw}")[::1 if not quick else 3]
+        elif nm == "Internals::pdu_from_flag" and "IP::e" in r["params"]:
+            pool = cls_pool(["TCP", "UDP", "ICMP", "ICMPv6", "IPSecESP", "IPSecAH", "IP", "IPv6", "DNS"])
+            for t in IP_TAGS:
+                for raw in (1, 0):
+                    ops += data_ops(k, pool, f" {t} {raw}")[::1 if not quick else 3]
+        elif nm == "Internals::pdu_from_dlt_flag":
+            pool = cls_pool(["EthernetII", "Dot11*", "RadioTap", "Loopback", "SLL", "PPI", "IP", "IPv6", "Dot3"])
+            for t in DLT_TAGS:
+                for raw in (1, 0):
+                    ops += data_ops(k, pool, f" {t} {raw}")[::1 if not quick else 3]
+        elif nm == "Internals::pdu_from_flag":
+            pool = cls_pool(["EthernetII", "IP", "TCP", "Dot11*", "RadioTap", "DNS", "DHCP", "ICMPv6", "RSNEAPOL"])
+            for t in PDU_TYPES:
+                ops += data_ops(k, pool, f" {t}")[::1 if not quick else 9]
+        elif nm in ("Internals::allocate", "Internals::PDUAllocator::allocate"):
+            for t in (0x7777, 253, 0x7778, 254):
+                ops += data_ops(k, cls_pool(["DNS"]), f" {t}")
+        elif nm == "Internals::default_allocator":
+            ops += data_ops(k, cls_pool(["DNS"]), " 0") + data_ops(k, cls_pool(["IP"]), " 1")
+        elif nm == "Internals::Converters::convert":
+            ops += data_ops(k, [], " 0") + data_ops(k, [], " 1")
+        else:
+            ops += data_ops(k, pool_of(r))
+    return ops
+
+
+def coverage_table():
+    """(rows, stale, error): the disposition of every entry point as Lean evaluates it (Audit/C01Entry.lean)"""
+    r = core.lake(["env", "lean", ENTRY_AUDIT])
+    if r.returncode != 0:
+        return None, None, (r.stdout + r.stderr)[-3000:]
+    rows, stale = {}, []
+    for l in r.stdout.split("\n"):
+        f = l.split("\t")
+        if f[0] == "ENTRY" and len(f) >= 6:
+            rows[f[1]] = dict(tag=f[2], how=f[3], key=f[4], text=f[5])
+        elif f[0] == "STALE" and len(f) >= 2:
+            stale.append(f[1])
+    return rows, stale, None
+
+
+def run_entry_points(chk, gen):
+    """the coverage claimed by lean/TinsModel/Wire/Coverage.lean, executed: every entry point whose disposition is not
+    `notAParser` must be one harness/c01_entry.cpp calls, and is called on every-length / structured / mutated buffers
+    under the sanitizers with the C01 oracle on the outcome"""
+    rows = gen["rows"]
+    table, stale, err = coverage_table()
+    pat = r"ENTRY POINTS WITHOUT A DISPOSITION[^\n]*"
+    m = re.search(pat, "\n".join(getattr(chk, "proof_problems", [])) + "\n" + (err or ""))
+    if table is None and m is None:
+        # Coverage.lean did not build: elaborate its source (needs only the generated table) to have Lean name the rows
+        core.lake(["build", "TinsModel.Gen.EntryPoints"])
+        r = core.lake(["env", "lean", "TinsModel/Wire/Coverage.lean"])
+        m = re.search(pat, r.stdout + r.stderr)
+    exe, herr = core.build_harness("c01_entry")
+    if exe is None:
+        chk.violation("entry-point harness does not build (a construct-from-buffer form declared in a header without a definition "
+                      "the library exports?): " + (herr or "")[-1500:], ["build-error", (herr or "")[-4000:]], nofail=True)
+        return
+    out, _ = core.run_harness_lines(exe, [], ["list"], ("list",))
+    driven = set(out[0].split(" ")[1:]) if out and out[0].startswith("keys") else set()
+    known = {opkey(r["key"]): r for r in rows}
+    problems = []
+    if gen.get("unparsed"):
+        problems.append("the AST scan could not classify: " + "; ".join(gen["unparsed"]))
+    if table is not None:
+        for k, r in known.items():
+            t = table.get(k)
+            if t is None or t["tag"] == "NONE":
+                problems.append(f"no disposition for entry point {r['key']} ({r['header']})")
+            elif t["tag"] != "notAParser" and k not in driven:
+                problems.append(f"entry point {r['key']} has disposition {t['tag']} but harness/c01_entry.cpp does not call it")
+    elif m is None:
+        problems.append("the coverage table could not be evaluated: " + (err or "")[-800:])
+    # the deep harness (wire_main.cpp `parse <Class>`: dump, serialize, re-parse, clone, accessor sweep) must know every PDU
+    # class that can be built from a buffer -- ENTRY_CLASSES is written by hand, the generated table is not
+    want = {r["owner"] for r in rows if r["isPdu"] and r["kind"] == "ctor" and r["auto"]} | \
+           {r["owner"] + "*" for r in rows if r["isPdu"] and r["kind"] == "static" and r["name"] == "from_bytes"}
+    for c in sorted(want - set(wc.ENTRY_CLASSES)):
+        problems.append(f"PDU class {c} has a public parsing constructor / from_bytes but checks/wire_common.py ENTRY_CLASSES "
+                        "(harness/wire_main.cpp parse_class) does not drive it")
+    for c in sorted(set(wc.ENTRY_CLASSES) - want):
+        problems.append(f"checks/wire_common.py ENTRY_CLASSES names {c}, which the current headers cannot build from a buffer")
+    for k in sorted(driven - set(known)):
+        problems.append(f"harness/c01_entry.cpp has glue for {k}, which is no entry point of the current headers (stale glue)")
+    new = []
+    if m:
+        names = m.group(0).split(": ", 1)[1].split(" ; ")
+        new = [n for n in names if opkey(n) in known]
+        problems.insert(0, "construct-from-buffer form(s) of libtins without a disposition in lean/TinsModel/Wire/Coverage.lean "
+                           "(theorem entryPoints_covered fails): " + " ; ".join(names))
+    # drive everything the harness can call -- also a new entry point the table does not know yet (the search)
+    todo = [r for r in rows if opkey(r["key"]) in driven]
+    rng = random.Random(chk.seed + 101)
+    ops = gen_entry_ops(rng, todo, chk.tier == "quick")
+    chk.extra.setdefault("_seen", set())
+    before = len(chk.violations)
+    st = corr.correspond(chk, "C01", exe, ops, case_start=("entry",), model=False,
+                         classify=lambda op, impl: "entry:" + impl.split(" ")[0] + (":" + impl.split(" ")[1] if impl.startswith("throw ") else ""),
+                         sig_of=lambda k, d, c: {"kind": k, "class": "entry", "entry": c[-1].split(" ")[1] if c else ""})
+    found = any(not nofail for _, _, nofail in chk.violations[before:])
+    for ptxt in problems:
+        chk.violation("entry-point coverage: " + ptxt, ["entry-point-coverage", ptxt] + [f"# undriven/new: {n}" for n in new],
+                      nofail=not found)
+    ep = chk.extra.setdefault("entry_points", {})
+    ep["total"] = len(rows)
+    ep["by_kind"] = {k: sum(1 for r in rows if r["kind"] == k) for k in ("ctor", "static", "free", "method")}
+    if table:
+        ep["by_disposition"] = {t: sum(1 for v in table.values() if v["tag"] == t) for t in ("modelled", "harnessOnly", "notAParser", "NONE")}
+    ep["driven_by_c01_entry"] = len(todo)
+    ep["generated_calls"] = sum(1 for r in todo if r["auto"])
+    ep["stale_table_rows"] = stale or []
+    ep["sweep_ops"] = len(ops)
+    chk.trusted += ["translator/gen_entrypoints.py (clang-14 AST of every header -> Gen/EntryPoints.lean, harness/c01_entry_gen.h), "
+                    "harness/c01_entry.cpp, the hand-maintained disposition table lean/TinsModel/Wire/Coverage.lean"]
+    chk.assumptions += ["entry points = public constructors / static members / member functions / free functions of namespace Tins "
+                        "declared in a header below include/tins with a `const uint8_t*` parameter directly followed by an integer "
+                        "size; (begin, end) pointer pairs, single pointers without a size and the pcap callbacks (property C17) are "
+                        "not construct-from-buffer forms in this sense"]
+
+
 def run(chk):
+    import translator.gen_entrypoints as gen_entrypoints
+    gen = gen_entrypoints.main(["--quiet"])          # regenerate Gen/EntryPoints.lean + harness/c01_entry_gen.h before proving
     wire_checks.run_property(chk, "C01", want_parse=True, want_build=False)
+    chk.extra.setdefault("_seen", set())
+    run_entry_points(chk, gen)
     exe, err = core.build_harness("c01_cursor")
     if exe is None:
         chk.violation("harness does not build: " + (err or "")[-1500:], ["build-error"], nofail=True)
@@ -73,6 +315,27 @@ def run(chk):
 
 def replay(path):
     ops = [l.rstrip("\n") for l in open(path) if not l.startswith("#") and l.strip()]
+    if ops and ops[0].split(" ")[0] == "entry-point-coverage":
+        import translator.gen_entrypoints as gen_entrypoints
+        gen_entrypoints.main(["--quiet"])
+        ok, text = core.lake_build(["TinsModel.Props.C01"])
+        print("\n".join(ops[1:]))
+        print("lake build TinsModel.Props.C01:", "ok" if ok else "FAILS")
+        if not ok:
+            print(text[-1500:])
+            print(f"VIOLATION property=C01 replay={path}")
+            return 1
+        return 0
+    if ops and ops[0].split(" ")[0] == "entry":
+        exe, err = core.build_harness("c01_entry")
+        impl, mod, spec, faults = corr.evaluate("C01", exe, ops, ("entry",), model=False)
+        bad = corr.first_problem(ops, impl, None, spec)
+        for o, a, c in zip(ops, impl, spec):
+            print(o[:300]); print("  impl :", a[:600]); print("  spec :", c)
+        if bad:
+            print(f"VIOLATION property=C01 replay={path}")
+            return 1
+        return 0
     if ops and ops[0].split(" ")[0] in ("cinit", "oinit"):
         exe, err = core.build_harness("c01_cursor")
         impl, mod, spec, faults = corr.evaluate("C01", exe, ops, ("cinit", "oinit"))
